@@ -333,12 +333,25 @@ class Sim:
                 return
             t = asyncio.current_task()
             sim.emit("reconnCall" if t in sim.reconn_tasks else "connCall")
+            rt = getattr(c, "_receive_task", None)
+            if c.state.name == "CONNECTED" and (rt is None or rt.done()) and not c.lock.locked() and sim.conns:
+                # the situation a cancelled connect() leaves behind: CONNECTED, and nobody reads from the link
+                sim.emit(f"abandon {next((k for k, r, w in sim.conns if w is c.writer), 0)}")
             sim.reconn_connecting.add(t)
             try:
                 await orig_connect()
-            finally:
+            except asyncio.CancelledError:
+                # cancelled by its caller (wait_for) while it held the lock — not by close(), which is reported as a return
+                held = c.state.name != "CLOSED" and t.cancelling() > 0 and not sim.stopping
+                sim.reconn_connecting.discard(t)
+                sim.emit("connCancel" if held else "connReturn")
+                raise
+            except BaseException:
                 sim.reconn_connecting.discard(t)
                 sim.emit("connReturn")
+                raise
+            sim.reconn_connecting.discard(t)
+            sim.emit("connReturn")
         c.connect = connect
         orig_send = c.send
 
